@@ -5,7 +5,7 @@ V=${VERIF_ROOT:-/verif}
 cd $V || exit 2
 mkdir -p "$OUT"
 for d in "$@"; do
-  name=$(echo $d | sed 's#.*/\(C[0-9]*\)/\([0-9]*\)$#\1-\2#')
+  name=$(basename $(dirname $d))-$(basename $d)
   echo "##### $name" | tee $OUT/$name.txt
   tools/try_mutation.py $d/patch.diff all 2>&1 | tee -a $OUT/$name.txt | grep -E "rc=1|REFUSING|apply|RESULT"
 done
